@@ -208,3 +208,55 @@ def embed_pad(Bk, O, d_small, d_big):
     out = ref.zeros((d_big, d_big), O)
     out[:d_small, :d_small] = O
     return out
+
+
+# ------------------------------------------------------------------------------------------------
+# engine E2: CrossHair conditions (symbolic ints / strings), one structural case per condition
+# ------------------------------------------------------------------------------------------------
+
+def crosshair_condition(B, relfile, function, expect="confirmed", timeout_s=90):
+    """runs `crosshair check file:LINE` for one condition (function with a PEP316 docstring in /verif/ch/<relfile>).
+    expect="confirmed": the verdict must be "Confirmed over all paths" (a counterexample is a violation, anything else is
+    inconclusive); expect="refuted": reachability twin - CrossHair must produce a counterexample to `post: False`."""
+    import os
+    import re
+    import subprocess
+    import sys
+
+    from symx.explore import Unsupported
+
+    here = os.path.dirname(os.path.dirname(os.path.abspath(__file__)))
+    f = os.path.join(here, "ch", relfile)
+    src = open(f).read().splitlines()
+    line = None
+    for i, ln in enumerate(src):
+        if re.match(rf"def {re.escape(function)}\(", ln):
+            for j in range(i, min(i + 40, len(src))):
+                if "post:" in src[j]:
+                    line = j + 1
+                    break
+            break
+    if line is None:
+        raise Unsupported(f"condition {function} not found in {relfile}")
+    env = dict(os.environ)
+    env["PYTHONPATH"] = here
+    try:
+        p = subprocess.run([sys.executable, "-m", "crosshair", "check", "--report_all", "--per_condition_timeout", str(timeout_s),
+                            f"{f}:{line}"], capture_output=True, text=True, timeout=timeout_s * 3 + 60, env=env)
+        out = p.stdout + p.stderr
+    except Exception as e:  # noqa
+        raise Unsupported(f"crosshair could not be run: {e}")
+    if "No module named crosshair" in out:
+        raise Unsupported("crosshair-tool is not installed in the overlay venv")
+    mine = [ln for ln in out.splitlines() if f":{line}:" in ln]
+    verdict = mine[0] if mine else (out.strip().splitlines() or ["(no output)"])[-1]
+    if expect == "refuted":
+        B.require_structural(bool(mine) and "error" in mine[0],
+                             f"crosshair: reachability twin {function} was not refuted (vacuous precondition?): {verdict[-160:]}")
+        return
+    if mine and "error" in mine[0]:
+        B.require_structural(False, f"crosshair counterexample for {function}: {verdict[-220:]}")
+    elif mine and "Confirmed over all paths" in mine[0]:
+        B.require_structural(True, f"crosshair: {function} confirmed over all paths")
+    else:
+        raise Unsupported(f"crosshair verdict for {function} is not 'Confirmed over all paths': {verdict[-200:]}")
